@@ -495,6 +495,18 @@ M("C17", "sweep-swap-old-model", GS, "        averaged_ms = mps._update_mps(cstr
 M("C08", "sweep-env-off-by-one", GS, "                lidx = imps - 2\n", "                lidx = imps - 1\n", ["sweep-driver"], "two-site sweep to the left asks for the left environment of the wrong site")
 M("C06", "sweep-stale-copy", GS, "                res_mps = mps.copy()\n                res_mps._update_mps(cstruct, cidx, qnbigl, qnbigr, percent)", "                res_mps = mps.copy()\n                res_mps._update_mps(cstruct, cidx, qnbigr, qnbigl, percent)",
   ["fresh-labels", "single_sweep"], "stored optimum updated with the block labels of the two sides exchanged")
+M("C14", "spill-one-file-per-object", MP, '            dump_name = os.path.join(dir_with_id, f"{idx}.npy")', '            dump_name = os.path.join(dir_with_id, "site.npy")', ["spill-protocol", "file of its own"],
+  "all spilled sites of an object share one file")
+M("C14", "spill-shared-directory", MP, "            dir_with_id = os.path.join(self.compress_config.dump_matrix_dir, str(id(self)))\n            if not os.path.exists(dir_with_id):\n                try:",
+  "            dir_with_id = os.path.join(self.compress_config.dump_matrix_dir, str(os.getpid()))\n            if not os.path.exists(dir_with_id):\n                try:", ["spill-protocol"],
+  "spill directory named after the process, not the object: two live objects overwrite each other's sites")
+M("C14", "spill-reader-dtype", MP, "                mt = Matrix(np.load(mt_or_str_or_list), dtype=self.dtype)", "                mt = Matrix(np.load(mt_or_str_or_list))", ["spill-protocol", "reading a spilled site"],
+  "reloaded site tensor is not converted to the object's dtype")
+M("C14", "spill-reader-labels", MP, "                mt.sigmaqn = self._get_sigmaqn(item)\n            except:", "                mt.sigmaqn = self._get_sigmaqn(0)\n            except:", ["spill-protocol", "reading a spilled site"],
+  "reloaded site tensor gets the physical labels of site 0")
+M("C14", "spill-cleanup-everything", MP, "        dir_with_id = os.path.join(self.compress_config.dump_matrix_dir, str(id(self)))\n        if os.path.exists(dir_with_id):\n            try:\n                shutil.rmtree(dir_with_id)",
+  "        dir_with_id = self.compress_config.dump_matrix_dir\n        if os.path.exists(dir_with_id):\n            try:\n                shutil.rmtree(dir_with_id)", ["spill-protocol", "deleting an object"],
+  "deleting one object removes the whole spill directory, including the files of live objects")
 M("C06", "canonicalise-switch-always", "renormalizer/mps/mp.py", "        if (not self.to_right and idx == 1) or (self.to_right and idx == self.site_num - 2):\n            self._switch_direction()", "        self._switch_direction()", ["sweep-centre"],
   "direction switched after partial sweeps too")
 M("C02", "graph-cover-le", "renormalizer/mps/symbolic_mpo.py", "    if non_red.shape[0] < non_red.shape[1]:\n        for i in range(non_red.shape[0]):", "    if non_red.shape[0] <= non_red.shape[1]:\n        for i in range(non_red.shape[0]):", ["terminal-cover"],
